@@ -242,6 +242,7 @@ def check_library_graphs(ctx, case):
 
     def drive():
         valid = step(dsw.connect_valid_graph, k, mask)
+        step(dsw.connect_valid_graph, k, mask.astype(int) * np.array([ctx.rng.choice([1, 2, 3, 7]) for _ in range(len(mask))]))
         res = step(dsw.connect_coding_graph, k, mask, t)
         coding = None if res is None else res[1]
         if valid is not None:
